@@ -1,3 +1,4 @@
 import FinProtoc.Props.C03
 #print axioms FinProtoc.Props.enc_agree
 #print axioms FinProtoc.Props.cross
+#print axioms FinProtoc.Props.cross_roundtrip_full
